@@ -95,6 +95,9 @@ func init() {
 			if !exact && !strings.HasPrefix(w.Obligation, unit+"#") {
 				continue
 			}
+			if !exact && loadKnown().lookup("*", w.Obligation) != nil {
+				continue // the witness of a recorded finding fails on the unchanged tree already
+			}
 			if done[w.File+"/"+w.Test] {
 				continue
 			}
